@@ -77,7 +77,7 @@ func randCase(r *Rng, s string) string {
 	return string(b)
 }
 
-var harmlessHeaders = []string{"Content-Type", "Content-Length", "X-Foo", "Accept", "Vary", "ETag", "Link", "X-a.b_c", "Date", "Server", "Age", "Foo-Bar-Baz"}
+var harmlessHeaders = []string{"Content-Type", "Content-Length", "X-Foo", "Accept", "Vary", "ETag", "Link", "X-a.b_c", "Date", "Server", "Age", "Foo-Bar-Baz", "X-Zone", "Zz-Top", "X-AZaz09"}
 
 func alnumBytes(r *Rng, n int) []byte {
 	b := make([]byte, n)
@@ -847,6 +847,27 @@ func genC09(r *Rng, tier string) []Case {
 			c := cloneExchange(e)
 			c.RequestURI = uri
 			cs = append(cs, Case{"sxg_verify", []Sx{exchangeInSx(c), Zi(d + 5), Zi(0), statusKnown(c.ResponseStatus), ft, xt, st}})
+		}
+	}
+	// a Signature header with TWO members: the exchange's own signature, whose window has run out, next to a
+	// signature that is live but was made over another exchange - the algorithm runs per signature, none is valid
+	for _, ver := range sxgVersions {
+		e := mkExchange(r, ver, exOpts{contentType: true, payloadLen: 20, uri: "https://example.com/index.html"})
+		s1 := signExchange(e, key, 16, d, d+3600, certURL, "https://example.com/v")
+		other := mkExchange(r, ver, exOpts{contentType: true, payloadLen: 25, uri: "https://example.com/index.html"})
+		s2 := signExchange(other, key, 16, d+9*86400, d+9*86400+3600, certURL, "https://example.com/v")
+		if !s1.ok || !s2.ok {
+			continue
+		}
+		own, foreign := e.SignatureHeaderValue, other.SignatureHeaderValue
+		st := L(append(append([]Sx{}, s1.sigTab().L...), s2.sigTab().L...)...)
+		ft := fetchTab(certURL, s1.chain)
+		for _, hv := range []string{own + ", " + foreign, foreign + ", " + own, own + "," + own, foreign} {
+			c := cloneExchange(e)
+			c.SignatureHeaderValue = hv
+			for _, at := range []int64{d + 10, d + 9*86400 + 10, d + 5*86400} {
+				cs = append(cs, Case{"sxg_verify", []Sx{exchangeInSx(c), Zi(at), Zi(0), statusKnown(c.ResponseStatus), ft, xt, st}})
+			}
 		}
 	}
 	// the payload protected by the OTHER draft's encoding, its digest header and - the parameter is not covered by the
